@@ -13,7 +13,7 @@ trap cleanup EXIT
 chmod +x "$src/run_demo.sh" 2>/dev/null
 ( cd "$src" && bash ./run_demo.sh "$wt" ) > /tmp/confirm_$id.clean.log 2>&1; rc_clean=$?
 if ! git -C "$wt" apply --whitespace=nowarn "$src/patch.diff"; then echo "$id: PATCH DOES NOT APPLY"; exit 1; fi
-/tmp/seedtools/run_baseline.sh "$wt" > /tmp/confirm_$id.base.log 2>&1; rc_base=$?
+/verif/tools/seedtools/run_baseline.sh "$wt" > /tmp/confirm_$id.base.log 2>&1; rc_base=$?
 ( cd "$src" && bash ./run_demo.sh "$wt" ) > /tmp/confirm_$id.mut.log 2>&1; rc_mut=$?
 echo "$id: demo(unchanged)=$rc_clean baseline(with change)=$rc_base demo(with change)=$rc_mut"
 if [ $rc_clean -eq 0 ] && [ $rc_base -eq 0 ] && [ $rc_mut -ne 0 ]; then
@@ -25,7 +25,7 @@ try: m=json.load(open(d+'/meta.json'))
 except Exception: m={}
 m['confirmed']={'demo_exit_unchanged':int(sys.argv[2]),'baseline_250_pass_with_change':int(sys.argv[3])==0,
  'demo_exit_with_change':int(sys.argv[4]),
- 'ran':'tools/seed_confirm.sh: scratch worktree of /repo HEAD; run_demo.sh on unchanged tree; git apply patch.diff; /tmp/seedtools/run_baseline.sh (cmake+ninja+ctest, 250 baseline tests); run_demo.sh with change'}
+ 'ran':'tools/seed_confirm.sh: scratch worktree of /repo HEAD; run_demo.sh on unchanged tree; git apply patch.diff; /verif/tools/seedtools/run_baseline.sh (cmake+ninja+ctest, 250 baseline tests); run_demo.sh with change'}
 json.dump(m,open(d+'/meta.json','w'),indent=1)
 PY
   echo "$id: CONFIRMED -> $dst"
